@@ -130,6 +130,32 @@ def opC06DnsPick (args : List W) : String :=
     | none => "bad-decode"
   | _ => "bad-arity"
 
+/-- `c06.resultx`, `c06.dnsbasicx`, `c07.priox`: inputs with option bits that rule text cannot set
+    (set by the harness through reflection); compared with the model only. -/
+def opC06ResultX (args : List W) : String :=
+  match args with
+  | [rs, src] =>
+    match decIndexed rs, decIndexed src with
+    | some rs, some src =>
+      let m := newMatchingResult rs src
+      let res := getBasicResult m
+      let pick := match res with
+        | none => "none"
+        | some r => if m.replaceRules.isEmpty && m.basicRule.isNone then s!"d{r.listID}" else s!"b{r.listID}"
+      (classOf res).toString ++ ":" ++ pick ++ " -"
+    | _, _ => "bad-decode"
+  | _ => "bad-arity"
+
+def opC06DnsX (args : List W) : String :=
+  match args with
+  | [rs] =>
+    match decIndexed rs with
+    | some rs =>
+      let res := getDNSBasicRule rs
+      (classOf res).toString ++ ":" ++ (match res with | none => "none" | some r => s!"b{r.listID}") ++ " -"
+    | none => "bad-decode"
+  | _ => "bad-arity"
+
 def dispatchC (op : String) (args : List W) : Option String :=
   match op with
   | "c07.prio" => some (opC07Prio args)
@@ -142,6 +168,9 @@ def dispatchC (op : String) (args : List W) : Option String :=
   | "c06.pick" => some (opC06Pick args)
   | "c06.dnsbasic" => some (opC06Dns args)
   | "c06.dnspick" => some (opC06DnsPick args)
+  | "c06.resultx" => some (opC06ResultX args)
+  | "c06.dnsbasicx" => some (opC06DnsX args)
+  | "c07.priox" => some (opC07Prio args)
   | _ => none
 
 end UF.Ops
